@@ -29,8 +29,8 @@ ANCHORS = {'NmVerif.Kernel.createVector/createArray/createMutableArray': 'array:
            'NmVerif.Kernel.runSchedule': 'kernel entry nm_cuda_run_function / nm_hip_run_function / sycl parallel_for body, once per thread',
            'host side': 'functional::get_function_composition, get_function_operands, functional::apply (functor.hpp, function_composition.hpp)'}
 MANIFEST = dict(
-    text='Proof: 13 Lean theorems about the kernel body model — create_vector/create_array/device_array round trips from raw (pointer, shape, dim) triples, the guard (global id >= size writes nothing), the closed form of the fold over ANY schedule (order, interleaving, duplication, block size, over-provisioned or partial grid: a cell is final iff some executed thread addressed it, otherwise untouched; never out of bounds) and hence output = flattened host result for every covering launch — tied to the C++ by running the real kernel_helper.hpp + functional extraction/apply on the host for 42 view programs of depth 1..3, both operand rebuild modes, block sizes 1..33, exact..2x grids, five thread orders, duplicated / far / missing threads, against NumPy and the Lean fold on every check.',
-    note='No device in this sandbox: kernel launch, driver API, memory transfer and real hardware scheduling are not exercised; the 1-d launch is modelled as an arbitrary list of (thread, block) pairs executed sequentially (threads write disjoint cells or identical values, so sequential consistency is the only assumption). Lean kernel + propext/Classical.choice/Quot.sound. Known finding: column-major host operands are re-read row-major on the device path.',
+    text='Proof: 13 Lean theorems about the kernel body model — create_vector/create_array/device_array round trips from raw (pointer, shape, dim) triples, the guard (global id >= size writes nothing), the closed form of the fold over ANY schedule (order, interleaving, duplication, block size, over-provisioned or partial grid: a cell is final iff some executed thread addressed it, otherwise untouched; never out of bounds) and hence output = flattened host result for every covering launch — tied to the C++ by running the real kernel_helper.hpp + functional extraction/apply on the host for 54 view programs of depth 1..3 (CUDA/HIP/SYCL path: function extraction + device_array operands + fn::apply; OpenCL path: create_array(ptr,shape_ptr,dim) + direct view call), block sizes 1..33, exact..2x grids, five thread orders, duplicated / far / missing threads, against NumPy and the Lean fold on every check.',
+    note='No device in this sandbox: kernel launch, driver API, memory transfer and real hardware scheduling are not exercised; the 1-d launch is modelled as an arbitrary list of (thread, block) pairs executed sequentially (threads write disjoint cells or identical values, so sequential consistency is the only assumption). Lean kernel + propext/Classical.choice/Quot.sound. Known findings (unchanged tree): column-major host operands are re-read row-major on the device path; function extraction is wrong when a view operand is not the first operand; dangling reference in get_function_composition for binary ufuncs over views.',
     technique='Lean 4 induction over schedules (List (tid x bid)) + differential correspondence of the host-compilable kernel body')
 ASSUMPTIONS = ['a device launch is equivalent to some sequential execution of its threads (each thread writes one cell; colliding writes carry the same value)',
                'block_id * block_size + thread_id does not wrap in size_t (launch geometry below 2^64 threads)',
@@ -268,7 +268,11 @@ GROUPS = [1, 2, 3, 4, 5, 6]
 
 
 def harness_specs(tier):
-    return [dict(name='h_c13_g%d' % g, src='h_c13.cpp', flavour='fast', extra=['-DC13_GROUP=%d' % g]) for g in GROUPS]
+    sp = [dict(name='h_c13_g%d' % g, src='h_c13.cpp', flavour='fast', extra=['-DC13_GROUP=%d' % g]) for g in GROUPS]
+    if tier == 'thorough':
+        # the same TUs under ASan + UBSan (NDEBUG as the baseline): out-of-bounds / lifetime errors of the kernel body are results
+        sp += [dict(name='h_c13_g%d_san' % g, src='h_c13.cpp', flavour='san', extra=['-DC13_GROUP=%d' % g]) for g in GROUPS]
+    return sp
 
 
 # ---------------------------------------------------------------------------------------------------------------
@@ -383,6 +387,16 @@ def sched_picker(rng, ctr, count, full_cross=False):
 
 
 def gen(tier, rng):
+    k = 0
+    for c in gen_(tier, rng):
+        yield c
+        # thorough: every 4th in-domain request (every 16th of the known-defect regions) also goes to the sanitizer build
+        k += 1
+        if tier == 'thorough' and c.req.startswith('c13_kern') and 'cross' not in c.tags and k % (4 if c.dom else 16) == 0:
+            yield Case(c.req, c.harness + '_san', dom=c.dom, oracle=c.oracle, model=False, mreq=c.mreq, nontrivial=False, tags=list(c.tags) + ['san'])
+
+
+def gen_(tier, rng):
     ctr = Counter()
     ncase, nsched = (6, 3) if tier == 'quick' else (40, 6)
     # witness of the known finding first
@@ -473,4 +487,4 @@ KNOWN_PREDICATES = {'colmajor_operand': colmajor_operand, 'nonfirst_view_operand
 def coverage_extra(cases, tier):
     progs = sorted({t[5:] for c in cases for t in c.tags if t.startswith('prog=')})
     bs = sorted({int(t[4:]) for c in cases for t in c.tags if t.startswith('bsz=')})
-    return {'programs': progs, 'block_sizes': bs, 'device_launch_covered': False}
+    return {'programs': len(progs), 'program_names': progs, 'block_sizes': bs, 'device_launch_covered': False}
